@@ -1246,7 +1246,7 @@ def judge(case, o_tc, o_td, o_td2):
             return "ok", [], flags + ["both-raise"]
         a0 = (case.get("args") or [None])[0]
         ntk = [k for k, _ in (o_tc.get("nt_before") or [])]
-        if o_td.get("exc") == "KeyError" and isinstance(a0, list) and len(a0) == 2 and a0[0] == "lit" and a0[1] in ntk and not outer:
+        if (o_td.get("exc") == "KeyError" or "locked" in o_td.get("msg", "").lower()) and isinstance(a0, list) and len(a0) == 2 and a0[0] == "lit" and a0[1] in ntk and not outer:
             # the key names a field held in _non_tensordict (None ...): the underlying tensordict does not know it
             return "ok", [], flags + ["field-outside-the-tensordict"]
         if case["name"] in ("update", "update_", "update_at_") and isinstance(a0, list) and a0 and (a0[0] == "dct" or a0[:2] == ["like", "dict"]):
